@@ -53,12 +53,13 @@ def coq_str(s):
 
 
 def make_tree(root):
-    for d in ('sand', 'sand/sub', 'sand_evil', 'other'):
+    for d in ('sand', 'sand/sub', 'sand_evil', 'Sand', 'other'):
         os.makedirs(os.path.join(root, d), exist_ok=True)
     inc = ('<xs:schema xmlns:xs="http://www.w3.org/2001/XMLSchema" targetNamespace="%s">'
            '<xs:element name="%s" type="xs:string"/><xs:complexType name="CT"><xs:sequence/></xs:complexType>'
            '<xs:simpleType name="ST"><xs:restriction base="xs:string"/></xs:simpleType></xs:schema>')
-    for d, marker in (('sand', 'inside'), ('sand/sub', 'insidesub'), ('sand_evil', 'sibling'), ('other', 'outside')):
+    for d, marker in (('sand', 'inside'), ('sand/sub', 'insidesub'), ('sand_evil', 'sibling'), ('Sand', 'casesibling'),
+                      ('other', 'outside')):
         with open(os.path.join(root, d, 'inc.xsd'), 'w') as f:
             f.write(inc % ('urn:t', marker))
         with open(os.path.join(root, d, 'imp.xsd'), 'w') as f:
@@ -66,7 +67,7 @@ def make_tree(root):
 
 
 TARGETS = {'inside': 'sand/inc.xsd', 'insidesub': 'sand/sub/inc.xsd', 'sibling': 'sand_evil/inc.xsd',
-           'outside': 'other/inc.xsd'}
+           'casesibling': 'Sand/inc.xsd', 'outside': 'other/inc.xsd'}
 
 
 def spellings(root, target):
@@ -77,6 +78,8 @@ def spellings(root, target):
            'detour': 'sub/../' + rel, 'double-slash': rel.replace('/', '//', 1) if '/' in rel else './/' + rel}
     if rel.startswith('..'):
         out['encoded-dots'] = rel.replace('..', '%2e%2e', 1)
+        out['encoded-dots-2'] = rel.replace('..', '%252e%252e', 1)       # percent-encoded twice / three times
+        out['encoded-dots-3'] = rel.replace('..', '%25252e%25252e', 1)
     out['abs-detour'] = os.path.join(root, 'sand', 'sub', '..', rel)
     out['file-url-detour'] = 'file://' + os.path.join(root, 'sand', '..', TARGETS[target])
     return out
@@ -100,6 +103,8 @@ def main_schema(mech, location, version):
 
 
 def subject(case):
+    import warnings
+    warnings.simplefilter('ignore')
     import xmlschema
     root = os.path.join(str(common.BUILD), 'tmp', 'c12_%d' % os.getpid())
     if not os.path.isdir(os.path.join(root, 'sand')):
@@ -172,7 +177,7 @@ def subject(case):
             acc.append('main')
         elif relp.startswith('sand' + os.sep):
             acc.append('inside')
-        elif relp.startswith('sand_evil'):
+        elif relp.startswith('sand_evil') or relp.startswith('Sand' + os.sep):
             acc.append('sibling')
         else:
             acc.append('outside')
@@ -185,7 +190,7 @@ def subject(case):
                 names.add(n.split('}')[-1])
         except Exception:  # noqa
             pass
-        out['markers'] = sorted(names & {'inside', 'insidesub', 'sibling', 'outside'})
+        out['markers'] = sorted(names & {'inside', 'insidesub', 'sibling', 'casesibling', 'outside'})
     # the decision on the normalised URL of the location (direct API) for the model correspondence
     try:
         from xmlschema.utils.urls import normalize_url
@@ -211,7 +216,8 @@ def allowed_classes(mode):
 
 
 def target_class(target):
-    return {'inside': 'inside', 'insidesub': 'inside', 'sibling': 'sibling', 'outside': 'outside', 'remote': 'remote'}[target]
+    return {'inside': 'inside', 'insidesub': 'inside', 'sibling': 'sibling', 'casesibling': 'sibling', 'outside': 'outside',
+            'remote': 'remote'}[target]
 
 
 def model_term(case, o):
@@ -303,13 +309,13 @@ def gen(ctx):
     cases = []
     modes = ['all', 'remote', 'local', 'sandbox', 'none']
     mechs = ['main', 'include', 'import', 'redefine', 'override', 'hint', 'mapper']
-    spells = ['relative', 'dotted', 'absolute', 'file-url', 'detour', 'double-slash', 'encoded-dots', 'abs-detour',
-              'file-url-detour']
+    spells = ['relative', 'dotted', 'absolute', 'file-url', 'detour', 'double-slash', 'encoded-dots', 'encoded-dots-2',
+              'encoded-dots-3', 'abs-detour', 'file-url-detour']
     for mode in modes:
         for mech in mechs:
-            for target in ('inside', 'insidesub', 'sibling', 'outside', 'remote'):
+            for target in ('inside', 'insidesub', 'sibling', 'casesibling', 'outside', 'remote'):
                 for sp in (spells if target != 'remote' else ['relative']):
-                    if sp == 'encoded-dots' and target in ('inside', 'insidesub'):
+                    if sp.startswith('encoded-dots') and target in ('inside', 'insidesub'):
                         continue
                     for version in ('1.0', '1.1'):
                         if mech == 'override' and version == '1.0':
@@ -336,7 +342,7 @@ def run(ctx):
         ctx.exhaustive = True
         ctx.rule = ('allow mode (5) x mechanism (main, include, import, redefine, override, xsi:schemaLocation hint, URI '
                     'mapper) x target (inside, inside/sub, sibling sharing the sandbox name as prefix, outside, remote) x '
-                    'spelling (9) x schema class%s; accesses observed through audit events; non-trivial = a restrictive mode '
+                    'spelling (11) x schema class%s; accesses observed through audit events; non-trivial = a restrictive mode '
                     'with a target outside the plain inside file' % (' (XSD 1.0 only for include/main in the quick tier)' if ctx.quick() else ''))
         evaluate(ctx, cases)
         check_remote_base(ctx)
